@@ -108,6 +108,8 @@ struct MapSpec<'a> {
     n_in: usize,
     /// input bit ranges in which the map must be injective with the other inputs fixed
     injective_in: Vec<(&'static str, usize, usize)>,
+    /// the point around which the map is extracted (None: zero)
+    base: Option<BitVec>,
 }
 
 pub fn run(reg: &dyn Registry, ctx: &Ctx) -> Outcome {
@@ -143,14 +145,34 @@ pub fn run(reg: &dyn Registry, ctx: &Ctx) -> Outcome {
         // a stuck retry: zero delta at the second measured probe (reading index 5)
         scripts.push((format!("collection rounds={} with stuck retry", rounds), rounds, deviate(&base, &[(5, Dev::Repeat3)])));
     }
+    // a collection whose priming measurement is stuck (zero delta against the priming reading)
+    for rounds in [1u8, 2] {
+        let base = jitter_env::raw_readings(ctx.seed ^ 0x15CC ^ rounds as u64, 80);
+        scripts.push((format!("collection rounds={} with a stuck priming measurement", rounds), rounds, deviate(&base, &[(2, Dev::Repeat2)])));
+    }
     // collections that contain long runs of stuck measurements (any retry bound)
     for k in [9usize, 33, 70, 130, 260, 1030] {
         let base = jitter_env::raw_readings(ctx.seed ^ 0x15BB, 3 * k + 80);
         scripts.push((format!("collection rounds=2 with {} consecutive stuck measurements", k), 2, jitter_env::with_stuck_run(&base, 5, k, Dev::Repeat3)));
     }
+    // maps over two calls: pool -> second output, for histories whose first call is timer_stats or a
+    // collection with a long run of stuck measurements (state carried from one call into the next)
+    let mut two_call: Vec<(String, Vec<crate::ops::Op>, Vec<u64>)> = Vec::new();
+    {
+        use crate::ops::Op;
+        let base = jitter_env::raw_readings(ctx.seed ^ 0x15DD, 400);
+        two_call.push(("timer_stats(false) then a collection".into(), vec![Op::TimerStats(false), Op::U64], base.clone()));
+        two_call.push(("timer_stats(false) then a collection with a stuck priming measurement".into(), vec![Op::TimerStats(false), Op::U64], deviate(&base, &[(4, Dev::Repeat2)])));
+        two_call.push(("timer_stats(true) then a collection with a stuck priming measurement".into(), vec![Op::TimerStats(true), Op::U64], deviate(&base, &[(6, Dev::Repeat2)])));
+        two_call.push(("two collections".into(), vec![Op::U64, Op::U64], base.clone()));
+        for k in [33usize, 130] {
+            let b2 = jitter_env::raw_readings(ctx.seed ^ 0x15EE, 3 * k + 200);
+            two_call.push((format!("two collections, the first with {} consecutive stuck measurements", k), vec![Op::U64, Op::U64], jitter_env::with_stuck_run(&b2, 5, k, Dev::Repeat3)));
+        }
+    }
     let mut maps: Vec<MapSpec> = vec![
-        MapSpec { name: "lfsr-fold(pool,time)", f: Box::new(fold), n_in: 128, injective_in: vec![("pool (time fixed)", 0, 64), ("time (pool fixed)", 64, 128)] },
-        MapSpec { name: "stir", f: Box::new(stir), n_in: 64, injective_in: vec![("pool", 0, 64)] },
+        MapSpec { name: "lfsr-fold(pool,time)", f: Box::new(fold), n_in: 128, injective_in: vec![("pool (time fixed)", 0, 64), ("time (pool fixed)", 64, 128)], base: None },
+        MapSpec { name: "stir", f: Box::new(stir), n_in: 64, injective_in: vec![("pool", 0, 64)], base: None },
     ];
     for (name, rounds, readings) in scripts.iter() {
         let rounds = *rounds;
@@ -162,14 +184,87 @@ pub fn run(reg: &dyn Registry, ctx: &Ctx) -> Outcome {
             })
             .map_err(|o| format!("{:?}", o))
         };
-        maps.push(MapSpec { name: Box::leak(name.clone().into_boxed_str()), f: Box::new(f), n_in: 64, injective_in: vec![("pool", 0, 64)] });
+        maps.push(MapSpec { name: Box::leak(name.clone().into_boxed_str()), f: Box::new(f), n_in: 64, injective_in: vec![("pool", 0, 64)], base: None });
     }
 
+    for (name, ops, readings) in two_call.iter() {
+        let f = move |x: &BitVec| -> Result<BitVec, String> {
+            let (mut g, _) = jitter_env::jitter_with(reg, readings.clone(), Some(2));
+            guarded(|| {
+                g.jitter().unwrap().set_pool(x.w[0]);
+                let mut last = 0u64;
+                for op in ops {
+                    match crate::ops::apply(&mut g, op) {
+                        crate::ops::Obs::U64(v) => last = v,
+                        crate::ops::Obs::I64(_) => {}
+                        o => panic!("unexpected observation {:?}", o),
+                    }
+                }
+                u64_bits(last)
+            })
+            .map_err(|o| format!("{:?}", o))
+        };
+        maps.push(MapSpec { name: Box::leak(name.clone().into_boxed_str()), f: Box::new(f), n_in: 64, injective_in: vec![("pool", 0, 64)], base: None });
+    }
+    // maps through a clone: pool -> first 64-bit output of a clone taken right away / with a half pending
+    // / made with clone_from (the clone must carry the whole pool)
+    for (name, pre_u32, via_clone_from) in [("clone, then a collection on the clone", false, false), ("next_u32, clone with the half pending, then a collection on the clone", true, false), ("next_u32, clone_from into a fresh generator, then a collection there", true, true)] {
+        let readings = jitter_env::raw_readings(ctx.seed ^ 0x15C1, 200);
+        let f = move |x: &BitVec| -> Result<BitVec, String> {
+            let mut g = reg.jitter_forking(crate::subject::TimerScript::new(readings.clone()));
+            guarded(|| {
+                g.jitter().unwrap().set_rounds(2);
+                g.jitter().unwrap().set_pool(x.w[0]);
+                if pre_u32 {
+                    g.next_u32();
+                }
+                let mut c = if via_clone_from {
+                    let mut t = reg.jitter_forking(crate::subject::TimerScript::new(readings.clone()));
+                    t.jitter().unwrap().set_rounds(2);
+                    t.clone_from_dyn(g.as_ref());
+                    t
+                } else {
+                    g.clone_box()
+                };
+                u64_bits(c.next_u64())
+            })
+            .map_err(|o| format!("{:?}", o))
+        };
+        maps.push(MapSpec { name, f: Box::new(f), n_in: 64, injective_in: vec![("pool", 0, 64)], base: None });
+    }
+    // one fold after a previous fold on the same object (anything a fold remembers for the next one):
+    // first timer_stats(true) over [t1][loop count][loop count][t1'], then the pool is set and one more
+    // fold of time t is observed; extracted around t = t1 so that times agreeing with t1 in their low /
+    // high half are among the basis points
+    let dense_t = u64::from_le_bytes(crate::alphabet::bg_bytes(ctx.seed, 0x15F0, 8).try_into().unwrap());
+    for (t1, lc) in [(0u64, 1u64), (0x1_0000_1234, 1), (dense_t, 1), (dense_t, 0xAAAA_AAAA_AAAA_AAAB), (0x1_0000_1234, 0)] {
+        for var2 in [false, true] {
+            let name = format!("lfsr-fold(pool,time) after timer_stats(true) of time {:#x} (loop-count readings {:#x}), var_rounds {}", t1, lc, var2);
+            let f = move |x: &BitVec| -> Result<BitVec, String> {
+                let (p, t) = (x.w[0], x.w[1]);
+                let mut readings = vec![t1, lc, lc, t1.wrapping_add(777), t];
+                if var2 {
+                    readings.extend([0, 0]);
+                }
+                readings.push(t.wrapping_add(12345));
+                let (mut g, _) = jitter_env::jitter_with(reg, readings, None);
+                guarded(|| {
+                    let j = g.jitter().unwrap();
+                    j.timer_stats(true);
+                    j.set_pool(p);
+                    j.timer_stats(var2);
+                    u64_bits(j.pool())
+                })
+                .map_err(|o| format!("{:?}", o))
+            };
+            maps.push(MapSpec { name: Box::leak(name.into_boxed_str()), f: Box::new(f), n_in: 128, injective_in: vec![("pool (time fixed)", 0, 64), ("time (pool fixed)", 64, 128)], base: Some(joint(0, t1)) });
+        }
+    }
     for m in &maps {
         let f: F = m.f.as_ref();
         let n = m.n_in;
         let key = |k: &str| format!("C15:{}:{}", m.name, k);
-        let model = match extract_fn(f, n, 64, &BitVec::zero(n)) {
+        let model = match extract_fn(f, n, 64, m.base.as_ref().unwrap_or(&BitVec::zero(n))) {
             Ok(m) => m,
             Err(e) => {
                 ctx.violation(&key("extract"), &format!("{}: cannot evaluate on the basis: {}", m.name, e), json!({"kind":"note"}));
@@ -178,7 +273,7 @@ pub fn run(reg: &dyn Registry, ctx: &Ctx) -> Outcome {
         };
         ctx.add("states", n as u64 + 1);
         ctx.add("basis_executions", n as u64 + 1);
-        let heavy = m.name.contains("consecutive stuck");
+        let heavy = m.name.contains("consecutive stuck") || m.name.contains("then a collection") || m.name.contains("two collections") || m.name.contains("clone");
         let mut xs = inputs(n, ctx.seed, (n == 64 && !heavy) || thorough);
         if heavy && !thorough {
             xs.truncate(64 + 1 + 2016 + 64 + 1 + 256);
@@ -225,34 +320,46 @@ pub fn run(reg: &dyn Registry, ctx: &Ctx) -> Outcome {
         // extracted around a dense base point (used only to find concrete witnesses)
         let bound = bad == 0;
         let dense = if bound { None } else { extract_fn(f, n, 64, &BitVec::from_bytes(n, &alphabet::bg_bytes(ctx.seed, 0x15DE, n / 8))).ok() };
-        let decide: &FnModel = dense.as_ref().unwrap_or(&model);
+        // rank facts are taken from the model extracted around the map's base point and, if that one is not
+        // bound to the code, also from the dense-base model; a rank defect is a verdict only with a
+        // concrete colliding pair on the real code
+        let mut decide_on: Vec<&FnModel> = vec![&model];
+        if let Some(d) = dense.as_ref() {
+            decide_on.push(d);
+        }
         let mut found_witness = false;
-        for (what, lo, hi) in &m.injective_in {
-            let sub = Mat { rows: 64, cols: hi - lo, col: decide.mat.col[*lo..*hi].to_vec() };
-            let (rank, kernel) = sub.rank_and_kernel();
-            ctx.add("model_facts_decided", 1);
-            ctx.note(&format!("rank[{} / {}]", m.name, what), json!(rank));
-            if rank < hi - lo {
-                // concrete witness on the real code: x and x ^ k (k in the sub-range) collide
-                let k = kernel.unwrap();
-                let mut kk = BitVec::zero(n);
-                for b in 0..(hi - lo) {
-                    if k.get(b) {
-                        kk.set(lo + b, true);
+        'facts: for (what, lo, hi) in &m.injective_in {
+            for decide in &decide_on {
+                let sub = Mat { rows: 64, cols: hi - lo, col: decide.mat.col[*lo..*hi].to_vec() };
+                let (rank, kernel) = sub.rank_and_kernel();
+                ctx.add("model_facts_decided", 1);
+                ctx.note(&format!("rank[{} / {}]", m.name, what), json!(rank));
+                if rank < hi - lo {
+                    // concrete witness on the real code: x and x ^ k (k in the sub-range) collide
+                    let k = kernel.unwrap();
+                    let mut kk = BitVec::zero(n);
+                    for b in 0..(hi - lo) {
+                        if k.get(b) {
+                            kk.set(lo + b, true);
+                        }
                     }
-                }
-                for base in [BitVec::zero(n), BitVec::from_bytes(n, &alphabet::bg_bytes(ctx.seed, 0x15AA, n / 8))] {
-                    let mut other = base.clone();
-                    other.xor_assign(&kk);
-                    if let (Ok(a), Ok(b)) = (f(&base), f(&other)) {
-                        if a == b {
-                            found_witness = true;
-                            ctx.violation(
-                                &key(&format!("not-injective-in-{}", what.split(' ').next().unwrap())),
-                                &format!("{}: not one-to-one in the {}: inputs {:x?} and {:x?} give the same pool/output {:#x} (model rank {} < {})", m.name, what, base.w, other.w, a.w[0], rank, hi - lo),
-                                json!({"kind":"jitter-collision","map":m.name,"input_a":base.w,"input_b":other.w,"output":a.w[0]}),
-                            );
-                            break;
+                    let mut bases = vec![BitVec::zero(n), BitVec::from_bytes(n, &alphabet::bg_bytes(ctx.seed, 0x15AA, n / 8))];
+                    if let Some(b) = &m.base {
+                        bases.insert(0, b.clone());
+                    }
+                    for base in bases {
+                        let mut other = base.clone();
+                        other.xor_assign(&kk);
+                        if let (Ok(a), Ok(b)) = (f(&base), f(&other)) {
+                            if a == b {
+                                found_witness = true;
+                                ctx.violation(
+                                    &key(&format!("not-injective-in-{}", what.split(' ').next().unwrap())),
+                                    &format!("{}: not one-to-one in the {}: inputs {:x?} and {:x?} give the same pool/output {:#x} (model rank {} < {})", m.name, what, base.w, other.w, a.w[0], rank, hi - lo),
+                                    json!({"kind":"jitter-collision","map":m.name,"input_a":base.w,"input_b":other.w,"output":a.w[0]}),
+                                );
+                                break 'facts;
+                            }
                         }
                     }
                 }
